@@ -224,6 +224,9 @@ class NsView:
                 out.append(([f + "=" + v], [(f, v)]))
             for f in shorts:
                 out.append(([f + v], [(f, v)]))
+                if a["kind"] == "str" and a["names"][0] != "config":
+                    # value glued to a core short flag and containing '=' (fixed finding C18-glued-core-value-with-equals)
+                    out.append(([f + "x=y"], [(f, "x=y")]))
         else:
             for f in longs + shorts:
                 out.append(([f], [(f, None)]))
